@@ -222,7 +222,13 @@ def slot(ctx, report, rule, facts, config):
                         oks = True
                 if not oks:
                     problems.append("NewStage: stage index is not len(stages) taken before add_stage")
-                if g0 != ("int", 0):
+                g_ok = g0 == ("int", 0)
+                if not g_ok and Q.is_call(ev, g0, "len") and n_add_stage and n_add_group:
+                    # `ids[stage].len()` measured after add_stage pushed the new (empty) group list and before add_group
+                    f_, i_, b_ = Q.table_access(ev, g0[2][0])
+                    g_ok = (Q.crate_fields(f_) == [(A.SB, "ids")] and [Q.strip(ev, i) for i in i_] == [s0] and pos_of(g0) is not None
+                            and n_add_stage[0] < pos_of(g0) < n_add_group[0][0] and _add_stage_pushes_empty(ctx, facts))
+                if not g_ok:
                     problems.append("NewStage: group index is not 0")
                 if len(n_add_stage) != 1 or len(n_add_group) != 1 or tuple(Q.strip(ev, i) for i in n_add_group[0][1][1:]) != (s0,) or not n_add_stage[0] < n_add_group[0][0]:
                     problems.append("NewStage: expected add_stage() then add_group(stage) exactly once each")
@@ -362,6 +368,26 @@ def lockstep(ctx, report, rule, facts, config):
                                       "`%s` is moved out of the builder in %s" % (e["name"], b.qname) if not ok else "build returns the stage list unchanged",
                                       site=b.loc(blk_i), config=config)
     report.floor(rule, "moves of builder tables", n_moves, 1, config=config)
+
+
+def _add_stage_pushes_empty(ctx, facts):
+    """What add_stage appends to the id table is a freshly created, empty group list."""
+    from . import semq as Q
+    try:
+        ev, ends = Q.sem(ctx, facts, A.SB + "::add_stage")
+    except Exception:
+        return False
+    rets = [e for e in ends if e.kind == "return"]
+    ok = bool(rets)
+    for e in rets:
+        ps = [x for x in e.path.events if x[0] == "call" and x[2].name == "push" and not x[2].local and x[3]
+              and Q.crate_fields(Q.table_access(ev, x[3][0])[0]) == [(A.SB, "ids")] and not Q.table_access(ev, x[3][0])[1]]
+        if len(ps) != 1:
+            return False
+        v = Q.strip(ev, ps[0][3][1])
+        c = Q.callee_of(ev, v)
+        ok = ok and c is not None and c.name in ("new", "default") and not v[2]
+    return ok
 
 
 def _build_returns_stages(ctx, facts):
